@@ -670,6 +670,10 @@ def build(tier='quick', seed=0):
                            ('greater_or_equal', '1e30', 1e30), ('less', '100', 100.0)):
             arb_cases.append([V(bk, bt, bv, 'lit'), V('finite')])
             arb_cases.append([V('finite'), V(bk, bt, bv, 'lit')])
+        # ranges whose end points are not exactly representable / where lower + 1.0 * (upper - lower) rounds above upper
+        arb_cases.append([V('less_or_equal', '-1e-3', f32_round(-1e-3) if t == 'f32' else -1e-3, 'lit'), V('greater', '-2.25', -2.25, 'lit')])
+        arb_cases.append([V('greater_or_equal', '0.1', f32_round(0.1) if t == 'f32' else 0.1, 'lit'), V('less_or_equal', '0.7', f32_round(0.7) if t == 'f32' else 0.7, 'lit')])
+        arb_cases.append([V('greater_or_equal', '-123456.7', f32_round(-123456.7) if t == 'f32' else -123456.7, 'lit'), V('less_or_equal', '0.3', f32_round(0.3) if t == 'f32' else 0.3, 'lit')])
         for vs in arb_cases:
             full.append(decl('float', t, validators=vs, derives=['Debug', 'Arbitrary'], tags=['arb']))
         full.append(decl('float', t, derives=['Debug', 'Arbitrary'], tags=['arb']))
